@@ -137,6 +137,10 @@ type Sim struct {
 	wgs    map[uintptr]int
 	closed map[uintptr]interface{}
 	timers []*simCtx // active deadline contexts
+	// library timers (time.After / NewTimer / AfterFunc / NewTicker) on the simulated clock
+	ltimers []*Timer
+	tseq    int
+	afn     int
 	evq    []*simEvent
 	evseq  int
 	ctxN   int
@@ -506,6 +510,9 @@ func (s *Sim) advanceClock() bool {
 	for _, c := range s.timers {
 		consider(c.deadline)
 	}
+	for _, tm := range s.ltimers {
+		consider(tm.due)
+	}
 	for _, e := range s.evq {
 		consider(e.at)
 	}
@@ -536,6 +543,7 @@ func (s *Sim) fireTimers() {
 			}
 		}
 		if best == nil {
+			s.fireLibTimers()
 			return
 		}
 		s.logEvent(nil, 0, "timer", fmt.Sprintf("ctx#%d", best.seq))
